@@ -40,6 +40,12 @@ func TestGen(t *testing.T) {
 		} else {
 			genRef(t, out, budget)
 		}
+	case "C13":
+		if replay != "" {
+			replayStatus(t, out, replay)
+		} else {
+			genStatus(t, out, budget)
+		}
 	default:
 		t.Fatalf("unknown VERIF_PROPERTY %q", os.Getenv("VERIF_PROPERTY"))
 	}
